@@ -1119,6 +1119,287 @@ theorem explicit_size_counterexample_aux :
 
 end Compmech.Lifecycle.Panel
 
+/-! ### after one successful `calc_k0()` only the definition decides whether a call succeeds -/
+namespace Compmech.Lifecycle.Panel
+
+def machOK : MachVal → Bool
+  | .none | .lt1 => false
+  | _ => true
+
+/-- everything any call may need has been derived -/
+def Ready (d : Def) (m : MName) (h : Hidden) : Prop :=
+  h.model = .valid m ∧ h.r ≠ .none ∧ h.alpha = true ∧ h.plyts ≠ .none ∧ h.lps ≠ .none ∧ h.lam ≠ .none ∧
+  h.F ≠ .none ∧ h.size ≠ .missing ∧ machOK h.mach = machOK d.mach
+
+/-- the conditions on (definition, model) alone under which an instruction succeeds in a `Ready` state -/
+def instrOK (d : Def) (m : MName) : Instr → Bool
+  | .failUnless c _ => c.holds d
+  | .supports f _ => f.has m
+  | .mach => machOK d.mach
+  | .kernFlow => (match d.flow with | .bad => false | _ => true)
+  | .when c i => !c.holds d || instrOK d m i
+  | _ => true
+
+/-- … and a call: every instruction of its program -/
+def opOK (d : Def) (m : MName) (op : Op) : Bool := (prog op).all (instrOK d m)
+
+theorem firstFail_ready {d : Def} {m : MName} {h : Hidden} (hr : Ready d m h) :
+    ∀ (l : List Need), firstFail h l = none := by
+  obtain ⟨_, h2, h3, h4, _, h6, _, h8, _⟩ := hr
+  intro l
+  induction l with
+  | nil => rfl
+  | cons n ns ih =>
+    simp only [firstFail]
+    have : needFail h n = none := by
+      cases n <;> simp [needFail, h2, h3, h4, h6, h8]
+    rw [this]; exact ih
+
+theorem kernStep_ready {d : Def} {m : MName} {h : Hidden} (hr : Ready d m h) (k : Kern) : kernStep h k = .ok h := by
+  simp [kernStep, hr.1, firstFail_ready hr]
+
+theorem hstep_ready (d : Def) (m : MName) : ∀ (i : Instr) (h : Hidden), Ready d m h →
+    (instrOK d m i = true → ∃ h', hstep d i h = .ok h' ∧ Ready d m h') ∧
+    (instrOK d m i = false → ∃ e, hstep d i h = .error e) := by
+  intro i
+  induction i with
+  | «when» c i ih =>
+    intro h hr
+    simp only [hstep, instrOK]
+    by_cases hc : c.holds d = true
+    · simp only [hc, if_true, Bool.not_true, Bool.false_or]; exact ih h hr
+    · simp only [hc]
+      refine ⟨fun _ => ⟨h, by simp, hr⟩, fun hf => ?_⟩
+      simp at hc; simp at hf
+  | kern k => intro h hr; simp only [hstep, instrOK]; exact ⟨fun _ => ⟨h, kernStep_ready hr k, hr⟩, fun hf => by simp at hf⟩
+  | kernY a b => intro h hr; simp only [hstep, instrOK]; exact ⟨fun _ => ⟨h, kernStep_ready hr _, hr⟩, fun hf => by simp at hf⟩
+  | kernFlow =>
+    intro h hr
+    simp only [hstep, instrOK]
+    cases hf : d.flow <;> simp [kernStep_ready hr, hr]
+  | mach =>
+    intro h hr
+    obtain ⟨h1, h2, h3, h4, h5, h6, h7, h8, h9⟩ := hr
+    simp only [instrOK]
+    rw [← h9]
+    cases hm : h.mach with
+    | none => exact ⟨fun hf => by simp [machOK] at hf, fun _ => ⟨.ValueError, by simp [hstep, hm]⟩⟩
+    | lt1 => exact ⟨fun hf => by simp [machOK] at hf, fun _ => ⟨.ValueError, by simp [hstep, hm]⟩⟩
+    | eq1 =>
+      refine ⟨fun _ => ⟨{ h with mach := .bumped }, by simp [hstep, hm], h1, h2, h3, h4, h5, h6, h7, h8, ?_⟩,
+        fun hf => by simp [machOK] at hf⟩
+      rw [← h9, hm]; rfl
+    | bumped =>
+      exact ⟨fun _ => ⟨h, by simp [hstep, hm], h1, h2, h3, h4, h5, h6, h7, h8, h9⟩, fun hf => by simp [machOK] at hf⟩
+    | gt1 =>
+      exact ⟨fun _ => ⟨h, by simp [hstep, hm], h1, h2, h3, h4, h5, h6, h7, h8, h9⟩, fun hf => by simp [machOK] at hf⟩
+  | failUnless c e =>
+    intro h hr
+    simp only [hstep, instrOK]
+    by_cases hc : c.holds d = true <;> simp [hc, hr]
+  | supports f e =>
+    intro h hr
+    simp only [hstep, instrOK, hr.1]
+    by_cases hc : f.has m = true <;> simp [hc, hr]
+  | deriveModel => intro h hr; simp [hstep, instrOK, hr.1, hr]
+  | modelCheck a b => intro h hr; simp [hstep, instrOK, hr.1, hr]
+  | deriveLps => intro h hr; simp [hstep, instrOK, hr.2.2.2.2.1, hr]
+  | derivePlyts => intro h hr; simp [hstep, instrOK, hr.2.2.2.1, hr]
+  | setSize =>
+    intro h hr
+    obtain ⟨h1, h2, h3, h4, h5, h6, h7, h8, h9⟩ := hr
+    simp [hstep, instrOK, h1, Ready, h2, h3, h4, h5, h6, h7, h9]
+  | setAlpha =>
+    intro h hr
+    obtain ⟨h1, h2, h3, h4, h5, h6, h7, h8, h9⟩ := hr
+    simp [hstep, instrOK, h1, Ready, h2, h4, h5, h6, h7, h8, h9]
+  | setR =>
+    intro h hr
+    obtain ⟨h1, h2, h3, h4, h5, h6, h7, h8, h9⟩ := hr
+    simp [hstep, instrOK, h1, Ready, h2, h3, h4, h5, h6, h7, h8, h9]
+  | buildLam =>
+    intro h hr
+    obtain ⟨h1, h2, h3, h4, h5, h6, h7, h8, h9⟩ := hr
+    simp [hstep, instrOK, h1, Ready, h2, h3, h4, h5, h7, h8, h9]
+  | buildLamIfNone => intro h hr; simp [hstep, instrOK, hr.2.2.2.2.2.1, hr]
+  | setF =>
+    intro h hr
+    obtain ⟨h1, h2, h3, h4, h5, h6, h7, h8, h9⟩ := hr
+    simp [hstep, instrOK, h1, Ready, h2, h3, h4, h5, h6, h8, h9]
+  | needLamF => intro h hr; simp [hstep, instrOK, hr.2.2.2.2.2.1, hr.1, hr]
+  | needF e => intro h hr; simp [hstep, instrOK, hr.2.2.2.2.2.2.1, hr]
+  | push => intro h hr; simp [hstep, instrOK, hr]
+  | drop => intro h hr; simp [hstep, instrOK, hr]
+  | out a => intro h hr; simp [hstep, instrOK, hr]
+  | readReg r => intro h hr; simp [hstep, instrOK, hr]
+  | touch a => intro h hr; simp [hstep, instrOK, hr]
+
+theorem run_ready (d : Def) (m : MName) : ∀ (p : List Instr) (s : St), Ready d m s.h →
+    ((run d p s).2 = none ↔ p.all (instrOK d m) = true) ∧ Ready d m (run d p s).1.h := by
+  intro p
+  induction p with
+  | nil => intro s hr; simp [run, hr]
+  | cons i is ih =>
+    intro s hr
+    obtain ⟨hok, hbad⟩ := hstep_ready d m i s.h hr
+    cases hi : instrOK d m i with
+    | true =>
+      obtain ⟨h', hs, hr'⟩ := hok hi
+      have he : exec d i s = .ok ⟨h', (rstep i (wstep d i (record d i s.h) s.x, s.g)).1,
+          (rstep i (wstep d i (record d i s.h) s.x, s.g)).2⟩ := by simp [exec, hs]
+      simp only [run, he, List.all_cons, hi, Bool.true_and]
+      exact ih _ hr'
+    | false =>
+      obtain ⟨e, hs⟩ := hbad hi
+      have he : exec d i s = .error e := by simp [exec, hs]
+      simp [run, he, hi, hr]
+
+/-- the attributes, once derived, stay derived -/
+theorem hstep_mono (d : Def) : ∀ (i : Instr) (h h' : Hidden), hstep d i h = .ok h' →
+    (h.r ≠ .none → h'.r ≠ .none) ∧ (h.alpha = true → h'.alpha = true) ∧ (h.plyts ≠ .none → h'.plyts ≠ .none) ∧
+    (h.lps ≠ .none → h'.lps ≠ .none) ∧ (h.lam ≠ .none → h'.lam ≠ .none) ∧ (h.F ≠ .none → h'.F ≠ .none) ∧
+    (h.size ≠ .missing → h'.size ≠ .missing) := by
+  intro i
+  induction i with
+  | «when» c i ih =>
+    intro h h' hs
+    simp only [hstep] at hs
+    split at hs
+    · exact ih h h' hs
+    · simp at hs; subst hs; simp
+  | kern k => intro h h' hs; simp only [hstep] at hs; rw [(kernStep_ok hs).1]; simp
+  | kernY a b => intro h h' hs; simp only [hstep] at hs; rw [(kernStep_ok hs).1]; simp
+  | kernFlow =>
+    intro h h' hs
+    simp only [hstep] at hs
+    split at hs
+    · rw [(kernStep_ok hs).1]; simp
+    · rw [(kernStep_ok hs).1]; simp
+    · simp at hs
+  | _ =>
+    intro h h' hs
+    simp only [hstep] at hs
+    (repeat' split at hs) <;> simp at hs <;> subst hs <;> simp_all
+
+/-- if `i` establishes `P`, and `P` is kept by every instruction, a program containing `i` that runs to
+completion ends in a state with `P` -/
+theorem run_post (d : Def) (P : Hidden → Prop) (hmono : ∀ j h h', P h → hstep d j h = .ok h' → P h')
+    (p1 : List Instr) (i : Instr) (p2 : List Instr) (s : St) (hest : ∀ h h', hstep d i h = .ok h' → P h')
+    (hok : (run d (p1 ++ i :: p2) s).2 = none) : P (run d (p1 ++ i :: p2) s).1.h := by
+  rw [run_append] at hok ⊢
+  cases hr : run d p1 s with
+  | mk s1 o =>
+    cases o with
+    | some e => simp [hr] at hok
+    | none =>
+      simp only [hr] at hok ⊢
+      simp only [run] at hok ⊢
+      cases he : exec d i s1 with
+      | error e => simp [he] at hok
+      | ok s2 =>
+        simp only [he] at hok ⊢
+        exact run_keeps d P p2 s2 (fun j _ => hmono j) (hest s1.h s2.h (exec_ok he).1)
+
+theorem step_isOk_iff (d : Def) (t : State) (op : Op) :
+    (step d t op).2.isOk = true ↔ (run d (prog op) ⟨t.h, Work.start, t.g⟩).2 = none := by
+  simp only [step]
+  cases (run d (prog op) ⟨t.h, Work.start, t.g⟩).2 <;> simp [Outcome.isOk]
+
+theorem k0_makes_ready_aux (d : Def) (s : State) (hi : Inv d s.h) (hok : (step d s (.k0 false)).2.isOk = true) :
+    ∃ m, cModel d = .valid m ∧ Ready d m (step d s (.k0 false)).1.h := by
+  have hn : (run d (prog (.k0 false)) ⟨s.h, Work.start, s.g⟩).2 = none := by
+    simp only [step] at hok
+    cases hr : (run d (prog (.k0 false)) ⟨s.h, Work.start, s.g⟩).2 with
+    | none => rfl
+    | some e => simp [hr, Outcome.isOk] at hok
+  have hinv : Inv d (step d s (.k0 false)).1.h := step_preserves_inv_aux d s _ (Or.inr (by simp)) hi
+  simp only [step] at hinv ⊢
+  generalize hS : (⟨s.h, Work.start, s.g⟩ : St) = S at hn hinv ⊢
+  have mono := hstep_mono d
+  -- each derived attribute is established by one instruction of the program
+  have e_model : ModelKnown (run d (prog (.k0 false)) S).1.h :=
+    run_post d ModelKnown (fun j h h' hp hs => hstep_known d j h h' hs hp)
+      [.deriveModel] (.modelCheck .ValueError .ValueError) _ S
+      (fun h h' hs => hstep_establishes d _ h h' hs rfl) hn
+  have e_lps : (run d (prog (.k0 false)) S).1.h.lps ≠ .none :=
+    run_post d (fun h => h.lps ≠ .none) (fun j h h' hp hs => (mono j h h' hs).2.2.2.1 hp)
+      [.deriveModel, .modelCheck .ValueError .ValueError, .failUnless .stack .ValueError] .deriveLps _ S
+      (fun h h' hs => by
+        simp only [hstep] at hs
+        split at hs
+        · split at hs <;> simp at hs; subst hs; simp
+        · rename_i hne; simp at hs; subst hs; exact hne) hn
+  have e_plyts : (run d (prog (.k0 false)) S).1.h.plyts ≠ .none :=
+    run_post d (fun h => h.plyts ≠ .none) (fun j h h' hp hs => (mono j h h' hs).2.2.1 hp)
+      [.deriveModel, .modelCheck .ValueError .ValueError, .failUnless .stack .ValueError, .deriveLps] .derivePlyts _ S
+      (fun h h' hs => by
+        simp only [hstep] at hs
+        split at hs
+        · split at hs <;> simp at hs; subst hs; simp
+        · rename_i hne; simp at hs; subst hs; exact hne) hn
+  have e_size : (run d (prog (.k0 false)) S).1.h.size ≠ .missing :=
+    run_post d (fun h => h.size ≠ .missing) (fun j h h' hp hs => (mono j h h' hs).2.2.2.2.2.2 hp)
+      rebuild .setSize _ S
+      (fun h h' hs => by
+        simp only [hstep] at hs
+        split at hs <;> simp at hs
+        subst hs; simp) hn
+  have e_alpha : (run d (prog (.k0 false)) S).1.h.alpha = true :=
+    run_post d (fun h => h.alpha = true) (fun j h h' hp hs => (mono j h h' hs).2.1 hp)
+      (rebuild ++ [.setSize, lookup]) .setAlpha _ S
+      (fun h h' hs => by simp only [hstep] at hs; simp at hs; subst hs; rfl) hn
+  have e_r : (run d (prog (.k0 false)) S).1.h.r ≠ .none :=
+    run_post d (fun h => h.r ≠ .none) (fun j h h' hp hs => (mono j h h' hs).1 hp)
+      (rebuild ++ [.setSize, lookup, .setAlpha]) .setR _ S
+      (fun h h' hs => by
+        simp only [hstep] at hs; simp at hs; subst hs
+        by_cases hr : h.r = .none <;> simp [hr]) hn
+  have e_lam : (run d (prog (.k0 false)) S).1.h.lam ≠ .none :=
+    run_post d (fun h => h.lam ≠ .none) (fun j h h' hp hs => (mono j h h' hs).2.2.2.2.1 hp)
+      (rebuild ++ [.setSize, lookup, .setAlpha, .setR]) .buildLam _ S
+      (fun h h' hs => by
+        simp only [hstep] at hs
+        split at hs <;> simp at hs
+        subst hs; simp) hn
+  have e_F : (run d (prog (.k0 false)) S).1.h.F ≠ .none :=
+    run_post d (fun h => h.F ≠ .none) (fun j h h' hp hs => (mono j h h' hs).2.2.2.2.2.1 hp)
+      (rebuild ++ [.setSize, lookup, .setAlpha, .setR, .buildLam]) .setF _ S
+      (fun h h' hs => by
+        simp only [hstep] at hs
+        split at hs
+        · simp at hs
+        · split at hs <;> simp at hs
+          subst hs; simp) hn
+  obtain ⟨m, hm⟩ := e_model
+  refine ⟨m, model_canon hinv hm, hm, e_r, e_alpha, e_plyts, e_lps, e_lam, e_F, e_size, ?_⟩
+  rcases hinv.2.2.2.2.2.2.2 with h8 | ⟨h8, h8'⟩
+  · rw [h8]
+  · rw [h8', h8]; rfl
+
+/-- **after one successful `calc_k0()`**: in every later history a call succeeds iff the static conditions
+`opOK` on (definition, model) hold — the hidden state no longer matters -/
+theorem ok_after_k0_general_aux (d : Def) (s : State) (hi : Inv d s.h)
+    (hok : (step d s (.k0 false)).2.isOk = true) (ops : List Op) (op : Op) :
+    ∃ m, cModel d = .valid m ∧
+      (step d (runOps d (step d s (.k0 false)).1 ops) op).2.isOk = opOK d m op := by
+  obtain ⟨m, hc, hr⟩ := k0_makes_ready_aux d s hi hok
+  refine ⟨m, hc, ?_⟩
+  have keep : ∀ (ops : List Op) (t : State), Ready d m t.h → Ready d m (runOps d t ops).h := by
+    intro ops
+    induction ops with
+    | nil => intro t ht; exact ht
+    | cons o os ih =>
+      intro t ht
+      simp only [runOps]
+      exact ih _ (run_ready d m (prog o) ⟨t.h, Work.start, t.g⟩ ht).2
+  have hr' := keep ops _ hr
+  have key := (run_ready d m (prog op) ⟨(runOps d (step d s (.k0 false)).1 ops).h, Work.start,
+    (runOps d (step d s (.k0 false)).1 ops).g⟩ hr').1
+  rw [Bool.eq_iff_iff, step_isOk_iff]
+  exact key
+
+end Compmech.Lifecycle.Panel
+
 /-! ## PanelAssembly: decided on completely specified flat panels -/
 namespace Compmech.Lifecycle.Asm
 open Compmech.Lifecycle.Panel
